@@ -183,7 +183,7 @@ Del == /\ IsEv("del")
 (* C12: invalid arguments -> documented exception, nothing changes *)
 Bad == /\ IsEv("bad")
        /\ Fails(CASE E.what \in {"settype", "setval", "gettype", "remtype", "memtype"} -> {"ValueError", "TypeError"}
-                  [] OTHER -> {"ValueError"})
+                  [] OTHER -> {"ValueError"})          \* (setrefuse: the value type's own Assign refuses the value)
 
 Next == \/ Reset \/ End \/ New \/ Set \/ RemOk \/ RemFail \/ GetOk \/ GetFail \/ Mem
         \/ ResizeClear \/ ResizeReserve \/ ResizeFail \/ Assign \/ Copy \/ Snap \/ Del \/ Bad
